@@ -886,6 +886,8 @@ impl Reference {
 
 // ---------------------------------------------------------------- the implementation
 
+/// case indices below this one report the known deviation `nan-same-list` (the boundary stream; everything for a single-case run)
+static REPORT_KNOWN_BELOW: AtomicU64 = AtomicU64::new(u64::MAX);
 static OP_STARTED_MS: AtomicU64 = AtomicU64::new(0);
 static OP_INDEX: AtomicU64 = AtomicU64::new(0);
 static CASE_INDEX: AtomicU64 = AtomicU64::new(0);
@@ -1057,8 +1059,9 @@ where
         let want_out = rf.step(op);
         let mut want = rf.observe(want_out);
         if refl_nan && got.out == "b1" && want.out == "b0" {
-            static SEEN: AtomicU64 = AtomicU64::new(0);
-            if SEEN.fetch_add(1, Ordering::SeqCst) < 2 {
+            // reported from the class representatives (and a replay) only: the enumerated and
+            // random histories meet it thousands of times and would fill the report
+            if idx < REPORT_KNOWN_BELOW.load(Ordering::SeqCst) {
                 let via_s = if *via == Via::Script { "script" } else { "rust" };
                 let mut cut = case.clone();
                 cut.ops.truncate(k + 1);
@@ -1120,6 +1123,11 @@ where
     (recs, failed)
 }
 
+/// the reflexive-shortcut deviation (reported, but the history is not cut there)
+fn is_known_deviation(v: &serde_json::Value) -> bool {
+    v["key"].as_str().is_some_and(|k| k.ends_with(":nan-same-list"))
+}
+
 /// first violation key of running `case` (on a scratch report)
 fn first_key<T: Elem>(idx: u64, case: &Case, funcs: &mut Option<script::Funcs<T>>) -> Option<(String, Option<usize>)>
 where
@@ -1127,7 +1135,7 @@ where
 {
     let mut tmp = Report::default();
     let _ = run_case::<T>(idx, case, funcs, &mut tmp);
-    let v = tmp.impl_violations.first()?;
+    let v = tmp.impl_violations.iter().find(|v| !is_known_deviation(v))?;
     Some((
         v["key"].as_str().unwrap_or("").to_string(),
         v["input"]["step"].as_u64().map(|k| k as usize),
@@ -1148,17 +1156,21 @@ where
 {
     let mut tmp = Report::default();
     let (recs, failed) = run_case::<T>(idx, case, funcs, &mut tmp);
-    if !failed || case.ops.len() <= 4 {
+    let first_real = tmp.impl_violations.iter().position(|v| !is_known_deviation(v));
+    let (true, true, Some(first_real)) = (failed, case.ops.len() > 4, first_real) else {
         for v in tmp.impl_violations {
             if rep.impl_violations.len() < 200 {
                 rep.impl_violations.push(v);
             }
         }
         return (recs, failed);
+    };
+    for v in tmp.impl_violations.iter().filter(|v| is_known_deviation(v)) {
+        rep.impl_violations.push(v.clone());
     }
-    let key = tmp.impl_violations[0]["key"].as_str().unwrap_or("").to_string();
+    let key = tmp.impl_violations[first_real]["key"].as_str().unwrap_or("").to_string();
     let mut cur = case.clone();
-    if let Some(k) = tmp.impl_violations[0]["input"]["step"].as_u64() {
+    if let Some(k) = tmp.impl_violations[first_real]["input"]["step"].as_u64() {
         cur.ops.truncate(k as usize + 1);
     }
     let mut budget = 400;
@@ -1199,7 +1211,7 @@ where
         }
     }
     if !pushed {
-        for v in tmp.impl_violations {
+        for v in tmp.impl_violations.into_iter().filter(|v| !is_known_deviation(v)) {
             rep.impl_violations.push(v);
         }
     }
@@ -1684,7 +1696,7 @@ fn space(tier: &str) -> &'static Space {
                 let size = (alpha.len() as u64).pow(len as u32);
                 for &vm in &via_modes {
                     // script / alternating enumeration only for the shorter blocks
-                    if vm != 0 && size > if tier == "thorough" { 44_000_000 } else { 600_000 } {
+                    if vm != 0 && size > if tier == "thorough" { 50_000_000 } else { 600_000 } {
                         continue;
                     }
                     let uses = alpha
@@ -1923,6 +1935,7 @@ fn worker_cases(seed: u64, tier: &str, from: u64, n: u64) {
     let mut rep = Report::default();
     let mut runner = Runner::new();
     let mut pending: Vec<Pending> = vec![];
+    REPORT_KNOWN_BELOW.store(space(tier).boundary.len() as u64, Ordering::SeqCst);
     for idx in from..from + n {
         let Some(c) = case_at(seed, tier, idx) else { break };
         let Some(case) = c else { continue };
